@@ -64,7 +64,8 @@ type Config struct {
 	SolverLog   string
 	Seed        int64
 	NoMerge     bool
-	AltSolver   string // second opinion on final obligations ("" = none)
+	Fixed       map[string]uint64 // concrete run: every input takes its value from here (missing = 0)
+	AltSolver   string            // second opinion on final obligations ("" = none)
 	Deadline    time.Time
 }
 
@@ -84,22 +85,23 @@ type Stats struct {
 	AltAgree     int
 	AltDisagree  int
 	SolverErrors int
+	Known        map[string]int
 }
 
 type Explorer struct {
-	prog        *ssa.Program
-	cfg         Config
-	entry       *ssa.Function
-	hpkg        *ssa.Package
-	mu          sync.Mutex
-	cond        *sync.Cond
-	work        [][]Decision
-	active      int
-	stats       Stats
-	res         []*PathResult // violations, panics, unsupported, limits and sampled ok paths
-	okSeen      int
-	stop        bool
-	forkSites   map[string]int
+	prog      *ssa.Program
+	cfg       Config
+	entry     *ssa.Function
+	hpkg      *ssa.Package
+	mu        sync.Mutex
+	cond      *sync.Cond
+	work      [][]Decision
+	active    int
+	stats     Stats
+	res       []*PathResult // violations, panics, unsupported, limits and sampled ok paths
+	okSeen    int
+	stop      bool
+	forkSites map[string]int
 }
 
 func NewExplorer(prog *ssa.Program, hpkg *ssa.Package, entry *ssa.Function, cfg Config) *Explorer {
@@ -109,6 +111,7 @@ func NewExplorer(prog *ssa.Program, hpkg *ssa.Package, entry *ssa.Function, cfg 
 	x.stats.Reach = map[string]int{}
 	x.stats.Funcs = map[string]bool{}
 	x.stats.Stubs = map[string]bool{}
+	x.stats.Known = map[string]int{}
 	x.work = [][]Decision{nil}
 	return x
 }
@@ -168,6 +171,9 @@ func (x *Explorer) done(e *Exec, r *PathResult) {
 	x.stats.AltDisagree += e.altDisagree
 	for _, t := range r.Reach {
 		x.stats.Reach[t]++
+	}
+	for _, k := range e.known {
+		x.stats.Known[k]++
 	}
 	for f := range e.funcs {
 		x.stats.Funcs[f] = true
@@ -427,6 +433,9 @@ func (e *Exec) model() map[string]uint64 {
 
 // input creates (or returns) the named symbolic input.
 func (e *Exec) input(name string, w uint8) *Term {
+	if e.x.cfg.Fixed != nil {
+		return e.ts.Const(w, e.x.cfg.Fixed[name])
+	}
 	t := e.ts.Var(name, w)
 	if !e.inputIx[name] {
 		e.inputIx[name] = true
